@@ -19,10 +19,14 @@
      delete_object and delete_metadata(pid, None) (the two that remove deletion markers), from ANY
      world, for every k and BOTH modes: a faulted call that reports success ran exactly as the
      fault-free call — same answer, same world (temp files and locks included).
-   - [fault_success_whole_effect]: every call, ONE-OFF faults, any world whose file map is sorted
-     (every reachable one is: Indep.run_history_empty_sorted): success => the fault-free call
-     gives the same answer and its world has the same locks and the same files except deletion
-     markers. *)
+   - [fault_success_markers], [fault_success_whole_effect]: every call, ONE-OFF faults, any world
+     whose file map is sorted (every reachable one is: Indep.run_history_empty_sorted): success =>
+     the fault-free call gives the same answer and its world has the same locks and the same files
+     except deletion markers (so the same permanent files).  The one failure that is swallowed on
+     a path to success is the removal of a deletion marker (_delete_marked_files); what runs after
+     it (delete_metadata(pid, None), further removals, lock releases) does not see the marker left
+     behind: [NI], proved for delete_metadata(pid, None) with the projection lemma of Indep.v.
+   NOT proved here: persistent faults in delete_object / delete_metadata(pid, None). *)
 From HS Require Import Base PyVal FS Ops Spec Sched RefineLemmas Refine SeqProps CrashFault Integrity
   CrashGeneral FaultGeneral.
 From HS Require Indep.
@@ -617,3 +621,680 @@ Proof.
   destruct (H2 j w w' (Val v) d E).
 Qed.
 Print Assumptions persistent_success_identical.
+
+(* ================================================================================== *)
+(* 5. The calls that remove deletion markers: ONE-OFF faults                           *)
+(* ================================================================================== *)
+
+(* worlds that have the same locks and the same files on the addresses K (compared as file maps
+   restricted to K: what ListDir answers is determined by it) *)
+Definition RJ (K : addr -> bool) (w1 w2 : world) : Prop :=
+  locks w1 = locks w2 /\ Indep.proj K (fs w1) = Indep.proj K (fs w2).
+
+Lemma RJ_refl : forall K w, RJ K w w.
+Proof. intros. split; reflexivity. Qed.
+
+(* everything except the deletion markers *)
+Definition K2 (a : addr) : bool := match a with ADel _ => false | _ => true end.
+
+Definition sortedw (w : world) : Prop := Indep.fsorted (fs w).
+Lemma sortedw_pres : forall o w x w', sortedw w -> exec_op 0 o w = Some (x, w') -> sortedw w'.
+Proof. intros o w x w' H E. eapply Indep.exec_sorted; eauto. Qed.
+
+Definition postV {A} (V : A -> Prop) (r : outcome A) : Prop :=
+  match r with Val a => V a | Exn _ => True end.
+
+Lemma Always_mbindQ : forall A B (m : M A) (f : A -> M B) (Q1 : outcome A -> Prop) (Q : outcome B -> Prop),
+  Always m Q1 -> (forall a, Q1 (Val a) -> Always (f a) Q) -> (forall e, Q1 (Exn e) -> Q (Exn e)) ->
+  Always (mbind m f) Q.
+Proof.
+  intros A B m f Q1 Q Hm Hf He w w' r H. apply frun_mbind in H. destruct H as (w1 & a & H1 & H).
+  pose proof (Hm _ _ _ H1) as HQ. destruct a as [x|e]; [eapply Hf; eauto|].
+  destruct H as [_ ->]. auto.
+Qed.
+
+Lemma Always_any : forall A (m : prog A), Always m (fun _ => True).
+Proof. intros A m w w' r _. exact I. Qed.
+
+Lemma Always_try_finallyQ : forall A (m : M A) fin (V : A -> Prop),
+  Always m (postV V) -> Always (try_finally m fin) (postV V).
+Proof.
+  intros A m fin V Hm w w' r H. unfold try_finally in H.
+  apply frun_bind in H. destruct H as (w1 & a & H1 & H).
+  apply frun_bind in H. destruct H as (w2 & rf & _ & H).
+  destruct rf as [u|e]; simpl in H; destruct H as [_ ->]; [eapply Hm; exact H1|exact I].
+Qed.
+
+Lemma Always_catch : forall A (m : M A) (Q : outcome A -> Prop),
+  Always m Q -> Always (catch m) (fun r => match r with Val r' => Q r' | Exn _ => True end).
+Proof.
+  intros A m Q Hm w w' r H. unfold catch in H. apply frun_bind in H.
+  destruct H as (w1 & a & H1 & H). simpl in H. destruct H as [_ ->]. eapply Hm. exact H1.
+Qed.
+
+Lemma Always_rfd : forall a, Always (rename_for_deletion a) (postV (fun d => d = ADel a)).
+Proof.
+  intros a. unfold rename_for_deletion.
+  eapply Always_mbindQ with (Q1 := fun _ => True); [apply Always_any| |intros; exact I].
+  intros _ _. apply Always_ret. reflexivity.
+Qed.
+
+Definition dlK (K : addr -> bool) (l : list addr) : Prop := forall a, In a l -> K a = false.
+
+Lemma dlK_app : forall K l1 l2, dlK K l1 -> dlK K l2 -> dlK K (l1 ++ l2).
+Proof. intros K l1 l2 H1 H2 a Ha. apply in_app_or in Ha. destruct Ha; auto. Qed.
+
+Lemma Always_mark_docs : forall l, Always (mark_docs l) (postV (dlK K2)).
+Proof.
+  induction l as [|a l IH]; cbn [mark_docs].
+  - apply Always_ret. intros x [].
+  - eapply Always_mbindQ with (Q1 := fun _ => True); [apply Always_any| |intros; exact I].
+    intros _ _.
+    eapply Always_mbindQ with (Q1 := postV (dlK K2)); [| |intros; exact I].
+    + apply Always_try_finallyQ.
+      eapply Always_mbindQ with (Q1 := fun _ => True); [apply Always_any| |intros; exact I].
+      intros b _. destruct b; [|apply Always_ret; intros x []].
+      eapply Always_mbindQ; [apply Always_catch; apply Always_rfd| |intros e H; exact I].
+      intros [d|e] H; simpl in H.
+      * subst d. apply Always_ret. intros x [<-|[]]. reflexivity.
+      * destruct e; apply Always_ret; try exact I. intros x [].
+    + intros d Hd. eapply Always_mbindQ; [apply IH| |intros; exact I].
+      intros r Hr. apply Always_ret. apply dlK_app; assumption.
+Qed.
+
+Lemma run_swallow_remove_K : forall K a w, K a = false ->
+  exists w0, run_seq w (swallow_op (Remove a)) = Some (w0, Val tt) /\
+             locks w0 = locks w /\ Indep.proj K (fs w0) = Indep.proj K (fs w).
+Proof.
+  intros K a w Ha. unfold swallow_op. cbn [run_seq]. unfold exec_op.
+  destruct (lookup a (fs w)); eexists; (split; [reflexivity|]); split; try reflexivity.
+  simpl. apply Indep.proj_delete_out. exact Ha.
+Qed.
+
+Lemma run_delete_marked_K : forall K l, dlK K l -> forall w,
+  exists w0, run_seq w (delete_marked l) = Some (w0, Val tt) /\
+             locks w0 = locks w /\ Indep.proj K (fs w0) = Indep.proj K (fs w).
+Proof.
+  intros K. induction l as [|a l IH]; intros Hl w; cbn [delete_marked].
+  - exists w. auto.
+  - destruct (run_swallow_remove_K K a w) as (w1 & Hr & L1 & P1); [apply Hl; left; reflexivity|].
+    destruct (IH (fun x Hx => Hl x (or_intror Hx)) w1) as (w2 & Hr2 & L2 & P2).
+    exists w2. rewrite run_mbind, Hr. split; [exact Hr2|]. split; congruence.
+Qed.
+
+Lemma nosite_probe_all : forall l, nosite (probe_all l).
+Proof.
+  induction l as [|a l IH]; cbn [probe_all]; [exact I|].
+  apply nosite_mbind; [simpl; split; [reflexivity|intros []; exact I]|].
+  intros b. apply nosite_mbind; [exact IH|]. intros r. exact I.
+Qed.
+
+Section Markers.
+  Variable Iw : world -> Prop.
+  Hypothesis Ipres : forall o w x w', Iw w -> exec_op 0 o w = Some (x, w') -> Iw w'.
+
+  Lemma NI_delete_marked : forall K l, dlK K l -> NI Iw (RJ K) (RJ K) (delete_marked l).
+  Proof.
+    intros K l Hl w1 w2 w1' r _ _ [HL HP] H.
+    destruct (run_delete_marked_K K l Hl w1) as (u1 & Hr1 & L1 & P1).
+    rewrite Hr1 in H. inversion H; subst.
+    destruct (run_delete_marked_K K l Hl w2) as (u2 & Hr2 & L2 & P2).
+    exists u2. split; [exact Hr2|]. split; congruence.
+  Qed.
+
+  Lemma NI_ret : forall A R (a : A), NI Iw R R (ret a).
+  Proof. intros A R a w1 w2 w1' r _ _ HR H. inversion H; subst. exists w2. auto. Qed.
+
+  Lemma NI_eq_R : forall A (R : world -> world -> Prop) (m : prog A), (forall w, R w w) -> NI Iw eq R m.
+  Proof. intros A R m Hrefl w1 w2 w1' r _ _ <- H. eauto. Qed.
+
+  (* the swallowed failure: the marker stays *)
+  Lemma RF_swallow_remove : forall K a, K a = false ->
+    RF Iw (RJ K) (swallow_op (Remove a)) (fun _ => False).
+  Proof.
+    intros K a Ha j w w' r HI H. unfold swallow_op in H. cbn [rfs] in H.
+    rewrite fault_op_wait in H. cbn [is_site is_rename] in H. destruct j as [|j].
+    - cbn in H. inversion H; subst. left.
+      destruct (run_swallow_remove_K K a w' Ha) as (w0 & Hr & L & P).
+      exists w0. split; [exact Hr|]. split; congruence.
+    - destruct (exec_op 0 (Remove a) w) as [[x w1]|]; [|discriminate].
+      destruct x; cbn in H; discriminate.
+  Qed.
+
+  Lemma RF_delete_marked : forall K l, dlK K l -> RF Iw (RJ K) (delete_marked l) isExn.
+  Proof.
+    intros K. induction l as [|a l IH]; intros Hl; cbn [delete_marked].
+    - apply RF_nosite. exact I.
+    - assert (Hl' : dlK K l) by (intros x Hx; apply Hl; right; exact Hx).
+      eapply (RF_mbind Iw Ipres) with (R1 := RJ K) (P1 := fun _ => False).
+      + auto.
+      + apply RF_swallow_remove. apply Hl. left. reflexivity.
+      + intros _. apply IH. exact Hl'.
+      + intros _. apply NI_delete_marked. exact Hl'.
+      + intros x [].
+      + intros e [].
+  Qed.
+
+  (* bind after a program that swallows nothing, with what its fault-free result satisfies *)
+  Lemma RF_mbind_eqQ : forall A B (R : world -> world -> Prop) (m : M A) (f : A -> M B) (V : A -> Prop),
+    (forall w, R w w) -> RF Iw eq m isExn -> Always m (postV V) ->
+    (forall a, V a -> RF Iw R (f a) isExn) -> RF Iw R (mbind m f) isExn.
+  Proof.
+    intros A B R m f V Hrefl Hm HV Hf j w w' r HI H.
+    rewrite rfs_mbind in H. rewrite run_mbind.
+    destruct (rfs (FWait j false) w m) as [[[w1 a] st1]|] eqn:Em; [|discriminate].
+    pose proof (rfs_Iw Iw Ipres _ _ _ _ _ _ _ HI Em) as HI1.
+    destruct (rfs_wait_cases _ _ _ _ _ _ _ _ Em) as [[[j1 ->] Hrun]|[[_ ->]|[Hp _]]];
+      [| |discriminate].
+    - rewrite Hrun. destruct a as [x|e]; [|discriminate].
+      eapply Hf; [|exact HI1|exact H]. apply (HV _ _ _ (run_seq_frun _ _ _ _ _ Hrun)).
+    - destruct (Hm j w w1 a HI Em) as [(w01 & Hr & <-)|HP].
+      + rewrite Hr. destruct a as [x|e].
+        * apply rfs_done_state in H. destruct H as [_ H]. left. eauto.
+        * inversion H; subst. left. eauto.
+      + destruct a as [x|e]; [destruct HP|]. inversion H; subst. right. exact I.
+  Qed.
+
+  Lemma RF_mbind_eq : forall A B (R : world -> world -> Prop) (m : M A) (f : A -> M B),
+    (forall w, R w w) -> RF Iw eq m isExn ->
+    (forall a, RF Iw R (f a) isExn) -> RF Iw R (mbind m f) isExn.
+  Proof.
+    intros A B R m f Hrefl Hm Hf.
+    eapply RF_mbind_eqQ with (V := fun _ => True); auto.
+    intros w w' r _. destruct r; exact I.
+  Qed.
+
+  (* a one-off failure of a rename is absorbed *)
+  Lemma RF_rfd : forall a, RF Iw eq (rename_for_deletion a) (fun _ => False).
+  Proof.
+    intros a. unfold rename_for_deletion.
+    eapply (RF_mbind Iw Ipres) with (R1 := eq) (P1 := fun _ => False); auto.
+    - unfold unit_op. apply (RF_vis Iw Ipres); auto.
+      + intros x. apply RF_nosite. destruct x; exact I.
+      + intros _ Hr. discriminate Hr.
+    - intros _. apply RF_nosite. exact I.
+    - intros _. apply NI_eq.
+    - intros x [].
+  Qed.
+
+  Lemma RFe_mbind : forall A B (m : M A) (f : A -> M B),
+    RF Iw eq m isExn -> (forall a, RF Iw eq (f a) isExn) -> RF Iw eq (mbind m f) isExn.
+  Proof. intros. apply RF_mbind_eq; auto. Qed.
+
+  Lemma RFe_mark_docs : forall l, RF Iw eq (mark_docs l) isExn.
+  Proof.
+    induction l as [|a l IH]; cbn [mark_docs]; [apply RF_nosite; exact I|].
+    apply RFe_mbind; [apply (OkB_acquire Iw Ipres)|]. intros _.
+    apply RFe_mbind.
+    - apply (RF_try_finally Iw Ipres); [|apply nosite_release|apply NI_eq].
+      apply RFe_mbind; [apply (OkB_probe Iw Ipres)|]. intros b.
+      destruct b; [|apply RF_nosite; exact I].
+      eapply (RF_mbind Iw Ipres) with (R1 := eq)
+        (P1 := fun r => match r with Val r' => (fun _ => False) r' | Exn _ => False end); auto.
+      + apply RF_catch. apply RF_rfd.
+      + intros [d|e]; [apply RF_nosite; exact I|]. destruct e; apply RF_nosite; exact I.
+      + intros r. apply NI_eq.
+      + intros r [].
+      + intros e [].
+    - intros d. apply RFe_mbind; [exact IH|]. intros r. apply RF_nosite. exact I.
+  Qed.
+
+  (* delete_metadata(pid, None): a one-off failure raises, is absorbed (rename), or — the removal
+     of a marker — leaves that marker behind *)
+  Lemma RF_delete_metadata_all : forall p, RF Iw (RJ K2) (delete_metadata p None) isExn.
+  Proof.
+    intros p. cbn [delete_metadata].
+    apply RF_mbind_eq; [apply RJ_refl|apply (OkB_listdir Iw Ipres)|]. intros l.
+    apply RF_mbind_eq; [apply RJ_refl|apply RF_nosite; apply nosite_probe_all|]. intros l'.
+    eapply RF_mbind_eqQ; [apply RJ_refl|apply RFe_mark_docs|apply Always_mark_docs|].
+    intros ds Hds. apply RF_delete_marked. exact Hds.
+  Qed.
+
+  Lemma RF_lift_unit : forall K m, RF Iw (RJ K) m isExn -> RF Iw (RJ K) (lift_unit m) isExn.
+  Proof.
+    intros K m H. unfold lift_unit.
+    eapply (RF_mbind Iw Ipres) with (R1 := RJ K) (P1 := isExn); auto.
+    - intros _. apply RF_nosite. exact I.
+    - intros _. apply NI_ret.
+    - intros x [].
+  Qed.
+End Markers.
+
+(* ---------- delete_object: the markers of the reference files and of the object ---------- *)
+
+(* everything except the deletion markers outside the metadata directories: the markers of a pid
+   reference, a cid list or an object *)
+Definition K1 (a : addr) : bool :=
+  match a with
+  | ADel x => match meta_owner x with Some _ => true | None => false end
+  | _ => true
+  end.
+Definition LkT (l : lock) : bool := true.
+Definition csbT (c : cid) : bool := true.
+
+Lemma proj_proj : forall (K K' : addr -> bool) m,
+  (forall a, K' a = true -> K a = true) -> Indep.proj K' (Indep.proj K m) = Indep.proj K' m.
+Proof.
+  intros K K' m H. unfold Indep.proj. induction m as [|[k v] m IH]; simpl; auto.
+  destruct (K k) eqn:E; simpl.
+  - destruct (K' k); [f_equal|]; exact IH.
+  - destruct (K' k) eqn:E'; [|exact IH]. rewrite (H _ E') in E. discriminate.
+Qed.
+
+Lemma RJ_K1_K2 : forall w1 w2, RJ K1 w1 w2 -> RJ K2 w1 w2.
+Proof.
+  intros w1 w2 [HL HP]. split; [exact HL|].
+  rewrite <- (proj_proj K1 K2 (fs w1)), <- (proj_proj K1 K2 (fs w2)), HP; auto;
+    intros a Ha; destruct a; simpl in *; auto; discriminate.
+Qed.
+
+Lemma filter_LkT : forall L, filter LkT L = L.
+Proof. induction L as [|x L IH]; simpl; [|rewrite IH]; reflexivity. Qed.
+
+Lemma Wf_csbT : forall F m, Indep.Wf F csbT m.
+Proof. intros F m a x _ _. reflexivity. Qed.
+
+(* a program local to K sees nothing else: from worlds that agree on K it gives the same answer
+   and worlds that agree on K *)
+Lemma NI_local : forall A K (m : prog A) Q,
+  Indep.Lc 0 K LkT csbT m Q -> NI sortedw (RJ K) (RJ K) m.
+Proof.
+  intros A K m Q HL w1 w2 w1' r S1 S2 [HLk HP] H.
+  assert (Hpw : Indep.pw K LkT w1 = Indep.pw K LkT w2).
+  { unfold Indep.pw. rewrite HLk, HP. reflexivity. }
+  pose proof (@Indep.solo_equiv 0 K LkT csbT A m w1 Q HL (Wf_csbT _ _) S1) as E1.
+  pose proof (@Indep.solo_equiv 0 K LkT csbT A m w2 Q HL (Wf_csbT _ _) S2) as E2.
+  rewrite !run_as_0 in E1, E2. rewrite H in E1. rewrite Hpw, E2 in E1.
+  destruct (run_seq w2 m) as [[w2' r2]|]; [|discriminate].
+  inversion E1; subst. exists w2'. split; [reflexivity|].
+  rewrite !filter_LkT in H2. split; congruence.
+Qed.
+
+Definition Ow (a : addr) : Prop := exists q, meta_owner a = Some q.
+Definition Owl (l : list addr) : Prop := Forall Ow l.
+
+Lemma Ow_K1 : forall a, Ow a -> K1 a = true.
+Proof. intros a [q H]. destruct a; simpl in *; auto. rewrite H. reflexivity. Qed.
+Lemma Ow_del : forall a, Ow a -> Ow (ADel a).
+Proof. intros a H. exact H. Qed.
+Lemma owned_Ow : forall p a, owned_by p a = true -> Ow a.
+Proof. intros p a H. unfold owned_by in H. unfold Ow. destruct (meta_owner a); [eauto|discriminate]. Qed.
+
+Notation LBk := (Indep.LB 0 K1 LkT csbT).
+Notation TT := (@Bracket.TT _).
+
+Ltac leafk := let x := fresh "x" in let Hx := fresh "Hx" in
+  intros x Hx; destruct x; simpl in Hx;
+  first [apply Indep.LB_bad | apply Indep.LB_raise | (apply Indep.LB_ret; first [exact I | assumption | idtac])].
+
+Lemma LBk_probe : forall a, K1 a = true -> LBk (probe a) TT.
+Proof. intros. apply Indep.LB_vis; [assumption|leafk]. Qed.
+Lemma LBk_acquire : forall cls x, LBk (acquire cls x) TT.
+Proof. intros. apply Indep.LB_vis; [reflexivity|leafk]. Qed.
+Lemma LBk_release : forall cls x, LBk (release cls x) TT.
+Proof. intros. apply Indep.LB_vis; [reflexivity|leafk]. Qed.
+Lemma LBk_listdir : forall p, LBk (listdir p) Owl.
+Proof.
+  intros p. apply Indep.LB_vis.
+  - intros a Ha. apply Ow_K1. eapply owned_Ow; eauto.
+  - intros x Hx. destruct x; simpl in Hx;
+      first [apply Indep.LB_bad | apply Indep.LB_raise | idtac].
+    apply Indep.LB_ret. unfold Owl. eapply Forall_impl; [|exact Hx]. intros a Ha. apply (owned_Ow p a Ha).
+Qed.
+Lemma LBk_rfd : forall a, Ow a -> LBk (rename_for_deletion a) Ow.
+Proof.
+  intros a Ha. unfold rename_for_deletion.
+  eapply Indep.LB_mbind with (P1 := TT).
+  - apply Indep.LB_vis; [split; apply Ow_K1; auto|leafk].
+  - intros _ _. apply Indep.LB_ret. exact Ha.
+Qed.
+Lemma LBk_delete_marked : forall l, Owl l -> LBk (delete_marked l) TT.
+Proof.
+  induction l as [|a l IH]; intros Hl; cbn [delete_marked].
+  - apply Indep.LB_ret. exact I.
+  - inversion Hl; subst. eapply Indep.LB_mbind with (P1 := TT).
+    + apply Indep.LB_vis; [apply Ow_K1; assumption|leafk].
+    + intros _ _. apply IH. assumption.
+Qed.
+Lemma LBk_probe_all : forall l, Owl l -> LBk (probe_all l) Owl.
+Proof.
+  induction l as [|a l IH]; intros Hl; cbn [probe_all].
+  - apply Indep.LB_ret. constructor.
+  - inversion Hl; subst.
+    eapply Indep.LB_mbind; [apply LBk_probe; apply Ow_K1; assumption|]. intros b _.
+    eapply Indep.LB_mbind; [apply IH; assumption|]. intros r Hr.
+    apply Indep.LB_ret. destruct b; [constructor|]; assumption.
+Qed.
+Lemma LBk_mark_docs : forall l, Owl l -> LBk (mark_docs l) Owl.
+Proof.
+  induction l as [|a l IH]; intros Hl; cbn [mark_docs].
+  - apply Indep.LB_ret. constructor.
+  - inversion Hl; subst.
+    eapply Indep.LB_mbind; [apply LBk_acquire|]. intros _ _.
+    eapply Indep.LB_mbind with (P1 := Owl).
+    + eapply Indep.LB_try_finally; [|apply LBk_release].
+      eapply Indep.LB_mbind; [apply LBk_probe; apply Ow_K1; assumption|]. intros b _.
+      destruct b; [|apply Indep.LB_ret; constructor].
+      eapply Indep.LB_mbind; [apply Indep.LB_catch; apply LBk_rfd; assumption|].
+      intros [d|e] Hd.
+      * apply Indep.LB_ret. constructor; [exact Hd|constructor].
+      * destruct e; first [apply Indep.LB_raise | apply Indep.LB_ret; constructor].
+    + intros d Hd. eapply Indep.LB_mbind; [apply IH; assumption|]. intros r Hr.
+      apply Indep.LB_ret. apply Forall_app. split; assumption.
+Qed.
+Lemma LBk_delete_metadata_all : forall p, LBk (delete_metadata p None) TT.
+Proof.
+  intros p. cbn [delete_metadata].
+  eapply Indep.LB_mbind; [apply LBk_listdir|]. intros l Hl.
+  eapply Indep.LB_mbind; [apply LBk_probe_all; exact Hl|]. intros l' Hl'.
+  eapply Indep.LB_mbind; [apply LBk_mark_docs; exact Hl'|]. intros ds Hds.
+  apply LBk_delete_marked. exact Hds.
+Qed.
+
+(* delete_metadata(pid, None) does not see the markers left outside the metadata directories *)
+Lemma NI_delete_metadata_all : forall p, NI sortedw (RJ K1) (RJ K2) (delete_metadata p None).
+Proof.
+  intros p w1 w2 w1' r S1 S2 HR H.
+  destruct (NI_local _ K1 _ _ (LBk_delete_metadata_all p) w1 w2 w1' r S1 S2 HR H) as (w2' & Hr & HR').
+  exists w2'. split; [exact Hr|]. apply RJ_K1_K2. exact HR'.
+Qed.
+
+(* ---------- delete_object under a one-off fault ---------- *)
+
+Definition isOS {A} (r : outcome A) : Prop := r = Exn EOSError.
+
+Section DeleteObject.
+  Notation Iw := sortedw.
+  Notation Ipres := sortedw_pres.
+  Notation R2 := (RJ K2).
+
+  Lemma OkB_RF : forall A (m : M A), OkB Iw m -> RF Iw eq m isExn.
+  Proof. intros A m H. exact (proj1 H). Qed.
+
+  (* a delivered one-off fault makes _find_object raise OSError (no handler renames it) *)
+  Lemma RFS_mbind : forall A B (m : M A) (f : A -> M B),
+    RF Iw eq m isOS -> (forall a, RF Iw eq (f a) isOS) -> RF Iw eq (mbind m f) isOS.
+  Proof.
+    intros A B m f Hm Hf.
+    eapply (RF_mbind Iw Ipres) with (R1 := eq) (P1 := isOS).
+    - auto.
+    - exact Hm.
+    - exact Hf.
+    - intros a. apply NI_eq.
+    - intros a Ha. discriminate Ha.
+    - intros e He. unfold isOS in *. inversion He. reflexivity.
+  Qed.
+  Lemma RFS_leaf : forall A o (k : ans -> M A),
+    (forall x, nosite (k x)) -> (is_site o = true -> Always (k (AErr EFault)) isOS) ->
+    RF Iw eq (Vis o k) isOS.
+  Proof.
+    intros A o k Hk Hf. apply (RF_vis Iw Ipres); auto. intros x. apply RF_nosite. apply Hk.
+  Qed.
+  Lemma RFS_nosite : forall A (m : M A), nosite m -> RF Iw eq m isOS.
+  Proof. intros. apply RF_nosite. assumption. Qed.
+  Lemma RFS_probe : forall a, RF Iw eq (probe a) isOS.
+  Proof. intros. apply RFS_leaf; [intros []; exact I|intros Hs; discriminate Hs]. Qed.
+  Lemma RFS_read : forall a, RF Iw eq (read a) isOS.
+  Proof.
+    intros. apply RFS_leaf; [intros []; exact I|]. intros _. apply Always_ret. reflexivity.
+  Qed.
+
+  Ltac rfs_go :=
+    repeat (intros; first
+      [ apply RFS_probe | apply RFS_read | apply RFS_nosite; exact I
+      | apply RFS_mbind
+      | match goal with |- RF _ _ (match ?x with _ => _ end) _ => destruct x end ]).
+
+  Lemma RFS_find_object : forall q, RF Iw eq (find_object q) isOS.
+  Proof. intros. unfold find_object, read_cid, is_in_refs, read_lines. rfs_go. Qed.
+
+  Lemma NI_release : forall K cls x, NI Iw (RJ K) (RJ K) (release cls x).
+  Proof.
+    intros K cls x w1 w2 w1' r _ _ [HL HP] H. unfold release in *. cbn [run_seq] in *.
+    unfold exec_op in *. rewrite <- HL.
+    destruct (memb lock_eqb (cls, x) (locks w1)); cbn in *; inversion H; subst;
+      eexists; (split; [reflexivity|]); split; simpl; congruence.
+  Qed.
+
+  Lemma NI_mbind : forall A B (R : world -> world -> Prop) (m : M A) (f : A -> M B),
+    NI Iw R R m -> (forall a, NI Iw R R (f a)) -> NI Iw R R (mbind m f).
+  Proof.
+    intros A B R m f Hm Hf w1 w2 w1' r S1 S2 HR H. rewrite run_mbind in H. rewrite run_mbind.
+    destruct (run_seq w1 m) as [[u1 a]|] eqn:E1; [|discriminate].
+    destruct (Hm w1 w2 u1 a S1 S2 HR E1) as (u2 & E2 & HR'). rewrite E2.
+    destruct a as [x|e].
+    - assert (Su1 : Iw u1) by exact (run_seq_Iw Iw Ipres _ _ _ _ _ S1 E1).
+      assert (Su2 : Iw u2) by exact (run_seq_Iw Iw Ipres _ _ _ _ _ S2 E2).
+      exact (Hf x u1 u2 w1' r Su1 Su2 HR' H).
+    - inversion H; subst. eauto.
+  Qed.
+
+  Lemma NI_release2 : forall K c1 x1 c2 x2, NI Iw (RJ K) (RJ K) (release c1 x1 ;;; release c2 x2).
+  Proof. intros. apply NI_mbind; [apply NI_release|intros; apply NI_release]. Qed.
+
+  (* [m ;;; delete_metadata p None ;;; delete_marked l] and the like *)
+  Lemma RF_then_R2 : forall A B (m : M A) (f : A -> M B),
+    RF Iw R2 m isExn -> (forall a, RF Iw R2 (f a) isExn) -> (forall a, NI Iw R2 R2 (f a)) ->
+    RF Iw R2 (mbind m f) isExn.
+  Proof.
+    intros A B m f Hm Hf HN.
+    eapply (RF_mbind Iw Ipres) with (R1 := R2) (P1 := isExn); auto. intros a [].
+  Qed.
+
+  Lemma dlK2_one : forall a, dlK K2 [ADel a].
+  Proof. intros a x [<-|[]]. reflexivity. Qed.
+
+  (* d <- rename_for_deletion (APidRef p);; delete_metadata p None;;; delete_marked [d] *)
+  Lemma RF_orphan_branch : forall p,
+    RF Iw R2 (d <- rename_for_deletion (APidRef p) ;; delete_metadata p None ;;; delete_marked [d]) isExn.
+  Proof.
+    intros p.
+    eapply (RF_mbind_eqQ Iw Ipres);
+      [apply RJ_refl|apply OkB_RF; apply (OkB_rename_for_deletion Iw Ipres)|apply Always_rfd|].
+    intros d ->. apply RF_then_R2.
+    - apply (RF_delete_metadata_all Iw Ipres).
+    - intros _. apply (RF_delete_marked Iw Ipres). apply dlK2_one.
+    - intros _. apply NI_delete_marked. apply dlK2_one.
+  Qed.
+
+  Lemma RF_delete_object : forall p, RF Iw R2 (delete_object p) isExn.
+  Proof.
+    intros p. unfold delete_object.
+    apply (RF_try_finally Iw Ipres); [|apply nosite_release2|apply NI_release2].
+    apply (RF_mbind_eq Iw Ipres); [apply RJ_refl|apply OkB_RF; apply (OkB_acquire Iw Ipres)|]. intros _.
+    apply (RF_mbind_eq Iw Ipres); [apply RJ_refl|apply OkB_RF; apply (OkB_acquire Iw Ipres)|]. intros _.
+    eapply (RF_mbind Iw Ipres) with (R1 := eq)
+      (P1 := fun r => match r with Val r' => isOS r' | Exn _ => False end).
+    { intros a b <-. apply RJ_refl. }
+    { apply RF_catch. apply RFS_find_object. }
+    2:{ intros r. apply NI_eq_R. apply RJ_refl. }
+    2:{ intros [x|e] Hx; [discriminate Hx|]. inversion Hx; subst. apply Always_raise. }
+    2:{ intros e []. }
+    intros [c|e].
+    - (* the pid is bound to c *)
+      apply (RF_mbind_eq Iw Ipres); [apply RJ_refl|apply OkB_RF; apply (OkB_acquire Iw Ipres)|]. intros _.
+      apply (RF_try_finally Iw Ipres); [|apply nosite_release|apply NI_release].
+      eapply (RF_mbind_eqQ Iw Ipres);
+        [apply RJ_refl|apply OkB_RF; apply (OkB_rename_for_deletion Iw Ipres)|apply Always_rfd|].
+      intros d1 ->.
+      apply (RF_mbind_eq Iw Ipres);
+        [apply RJ_refl|apply OkB_RF; apply (OkB_update_refs_remove Iw Ipres)|]. intros _.
+      apply (RF_mbind_eq Iw Ipres); [apply RJ_refl|apply OkB_RF; apply (OkB_size_lines Iw Ipres)|].
+      intros n.
+      eapply (RF_mbind_eqQ Iw Ipres) with (V := dlK K1); [apply RJ_refl| | |].
+      + apply OkB_RF. destruct (Nat.eqb n 0); [|apply OkB_ret].
+        apply (OkB_mbind Iw Ipres); [apply (OkB_rename_for_deletion Iw Ipres)|]. intros d2.
+        apply (OkB_mbind Iw Ipres); [apply (OkB_rename_for_deletion Iw Ipres)|]. intros d3.
+        apply OkB_ret.
+      + destruct (Nat.eqb n 0).
+        * eapply Always_mbindQ; [apply Always_rfd| |intros; exact I]. intros d2 ->.
+          eapply Always_mbindQ; [apply Always_rfd| |intros; exact I]. intros d3 ->.
+          apply Always_ret. intros x [<-|[<-|[<-|[]]]]; reflexivity.
+        * apply Always_ret. intros x [<-|[]]. reflexivity.
+      + intros l Hl.
+        eapply (RF_mbind Iw Ipres) with (R1 := RJ K1) (P1 := isExn).
+        * apply RJ_K1_K2.
+        * apply (RF_delete_marked Iw Ipres). exact Hl.
+        * intros _. apply (RF_delete_metadata_all Iw Ipres).
+        * intros _. apply NI_delete_metadata_all.
+        * intros x [].
+        * auto.
+    - destruct e; try (apply RF_nosite; exact I).
+      + (* OrphanPidRefsFileFound *) apply RF_orphan_branch.
+      + (* RefsFileExistsButCidObjMissing *)
+        apply (RF_mbind_eq Iw Ipres); [apply RJ_refl|apply OkB_RF; apply (OkB_read_cid Iw Ipres)|].
+        intros c.
+        eapply (RF_mbind_eqQ Iw Ipres);
+          [apply RJ_refl|apply OkB_RF; apply (OkB_rename_for_deletion Iw Ipres)|apply Always_rfd|].
+        intros d ->.
+        eapply (RF_mbind_eqQ Iw Ipres) with (V := dlK K2); [apply RJ_refl| | |].
+        * apply OkB_RF. apply (OkB_try_finally Iw Ipres); [|apply nosite_release].
+          apply (OkB_mbind Iw Ipres); [apply (OkB_acquire Iw Ipres)|]. intros _.
+          apply (OkB_mbind Iw Ipres); [apply (OkB_is_in_refs Iw Ipres)|]. intros m.
+          apply (OkB_mbind Iw Ipres);
+            [destruct m; [apply (OkB_update_refs_remove Iw Ipres)|apply OkB_ret]|]. intros _.
+          apply (OkB_mbind Iw Ipres); [apply (OkB_size_lines Iw Ipres)|]. intros n.
+          destruct (Nat.eqb n 0); [|apply OkB_ret].
+          apply (OkB_mbind Iw Ipres); [apply (OkB_rename_for_deletion Iw Ipres)|]. intros d2.
+          apply OkB_ret.
+        * apply Always_try_finallyQ.
+          eapply Always_mbindQ with (Q1 := fun _ => True); [apply Always_any| |intros; exact I].
+          intros _ _.
+          eapply Always_mbindQ with (Q1 := fun _ => True); [apply Always_any| |intros; exact I].
+          intros m _.
+          eapply Always_mbindQ with (Q1 := fun _ => True); [apply Always_any| |intros; exact I].
+          intros _ _.
+          eapply Always_mbindQ with (Q1 := fun _ => True); [apply Always_any| |intros; exact I].
+          intros n _. destruct (Nat.eqb n 0).
+          -- eapply Always_mbindQ; [apply Always_rfd| |intros; exact I]. intros d2 ->.
+             apply Always_ret. intros x [<-|[<-|[]]]; reflexivity.
+          -- apply Always_ret. intros x [<-|[]]. reflexivity.
+        * intros l Hl. apply RF_then_R2.
+          -- apply (RF_delete_metadata_all Iw Ipres).
+          -- intros _. apply (RF_delete_marked Iw Ipres). exact Hl.
+          -- intros _. apply NI_delete_marked. exact Hl.
+      + (* PidNotFoundInCidRefsFile *) apply RF_orphan_branch.
+  Qed.
+
+  Lemma RF_delete_object_unfixed : forall p, RF Iw R2 (delete_object_unfixed p) isExn.
+  Proof.
+    intros p. unfold delete_object_unfixed.
+    apply (RF_try_finally Iw Ipres); [|apply nosite_release|apply NI_release].
+    apply (RF_mbind_eq Iw Ipres); [apply RJ_refl|apply OkB_RF; apply (OkB_acquire Iw Ipres)|]. intros _.
+    eapply (RF_mbind Iw Ipres) with (R1 := eq)
+      (P1 := fun r => match r with Val r' => isOS r' | Exn _ => False end).
+    { intros a b <-. apply RJ_refl. }
+    { apply RF_catch. apply RFS_find_object. }
+    2:{ intros r. apply NI_eq_R. apply RJ_refl. }
+    2:{ intros [x|e] Hx; [discriminate Hx|]. inversion Hx; subst. apply Always_raise. }
+    2:{ intros e []. }
+    intros [c|e]; [apply RF_nosite; exact I|]. destruct e; try (apply RF_nosite; exact I).
+    eapply (RF_mbind_eqQ Iw Ipres);
+      [apply RJ_refl|apply OkB_RF; apply (OkB_rename_for_deletion Iw Ipres)|apply Always_rfd|].
+    intros d ->.
+    apply (RF_mbind_eq Iw Ipres); [apply RJ_refl|apply OkB_RF; apply (OkB_read_cid Iw Ipres)|].
+    intros c.
+    apply (RF_mbind_eq Iw Ipres); [apply RJ_refl| |].
+    - apply OkB_RF. apply (OkB_try_finally Iw Ipres); [|apply nosite_release].
+      apply (OkB_mbind Iw Ipres); [apply (OkB_acquire Iw Ipres)|]. intros _.
+      apply (OkB_mbind Iw Ipres); [apply (OkB_is_in_refs Iw Ipres)|]. intros m.
+      destruct m; [apply (OkB_update_refs_remove Iw Ipres)|apply OkB_ret].
+    - intros _. apply RF_then_R2.
+      + apply (RF_delete_metadata_all Iw Ipres).
+      + intros _. apply (RF_delete_marked Iw Ipres). apply dlK2_one.
+      + intros _. apply NI_delete_marked. apply dlK2_one.
+  Qed.
+
+  (* every call *)
+  Theorem api_RF : forall c, RF Iw R2 (api c) isExn.
+  Proof.
+    intros c.
+    assert (H : no_marker_call c -> RF Iw R2 (api c) isExn).
+    { intros Hc. eapply RF_weakenR; [apply OkB_RF; apply (api_OkB Iw Ipres); exact Hc|].
+      intros a b <-. apply RJ_refl. }
+    destruct c; try (apply H; exact I).
+    - apply (RF_lift_unit Iw Ipres). apply RF_delete_object.
+    - destruct f as [f|]; [apply H; exact I|].
+      apply (RF_lift_unit Iw Ipres). apply (RF_delete_metadata_all Iw Ipres).
+    - apply (RF_lift_unit Iw Ipres). apply RF_delete_object_unfixed.
+  Qed.
+End DeleteObject.
+
+(* ================================================================================== *)
+(* 6. C13, first clause, ONE-OFF faults, all states                                    *)
+(* ================================================================================== *)
+
+(* same locks, same permanent files (CrashFault.permanent: everything except deletion markers and
+   temporary files) *)
+Definition same_permanent (w w0 : world) : Prop :=
+  locks w = locks w0 /\ forall a, permanent a = true -> lookup a (fs w) = lookup a (fs w0).
+
+(* the worlds differ at most by deletion markers (temp files are the same too) *)
+Definition same_but_markers (w w0 : world) : Prop :=
+  locks w = locks w0 /\ forall a, (forall x, a <> ADel x) -> lookup a (fs w) = lookup a (fs w0).
+
+Lemma RJ_K2_spec : forall w w0, RJ K2 w w0 -> same_but_markers w w0.
+Proof.
+  intros w w0 [HL HP]. split; [exact HL|]. intros a Ha.
+  assert (HK : K2 a = true) by (destruct a; try reflexivity; exfalso; eapply Ha; reflexivity).
+  rewrite <- (@Indep.lookup_proj K2 a (fs w) HK), HP. apply Indep.lookup_proj. exact HK.
+Qed.
+
+Lemma same_but_markers_permanent : forall w w0, same_but_markers w w0 -> same_permanent w w0.
+Proof.
+  intros w w0 [HL H]. split; [exact HL|]. intros a Ha. apply H. intros x ->. discriminate Ha.
+Qed.
+
+(* A call that reports success after a ONE-OFF failure has done everything the undisturbed call
+   does: the fault-free call gives the same answer, and the two final worlds have the same locks
+   and the same files except deletion markers (the failure hit the removal of a marker, whose
+   error _delete_marked_files swallows).  Every call, every k, every world with a sorted file map. *)
+Theorem fault_success_markers : forall w c k w' v,
+  Indep.fsorted (fs w) ->
+  run_fault (FWait k false) w (api c) = Some (w', Val v) ->
+  exists w0, run_seq w (api c) = Some (w0, Val v) /\ same_but_markers w' w0.
+Proof.
+  intros w c k w' v Hs H. rewrite rfs_run_fault in H.
+  destruct (rfs (FWait k false) w (api c)) as [[[w1 r1] st1]|] eqn:E; [|discriminate].
+  inversion H; subst.
+  destruct (rfs_wait_cases _ _ _ _ _ _ _ _ E) as [[_ Hr]|[[_ ->]|[Hp _]]]; [| |discriminate].
+  - exists w'. split; [exact Hr|]. apply RJ_K2_spec. apply RJ_refl.
+  - destruct (api_RF c k w w' (Val v) Hs E) as [(w0 & Hr & HR)|[]].
+    exists w0. split; [exact Hr|]. apply RJ_K2_spec. exact HR.
+Qed.
+
+Theorem fault_success_whole_effect : forall w c k w' v,
+  Indep.fsorted (fs w) ->
+  run_fault (FWait k false) w (api c) = Some (w', Val v) ->
+  exists w0, run_seq w (api c) = Some (w0, Val v) /\ same_permanent w' w0.
+Proof.
+  intros w c k w' v Hs H. destruct (fault_success_markers w c k w' v Hs H) as (w0 & Hr & HS).
+  exists w0. split; [exact Hr|]. apply same_but_markers_permanent. exact HS.
+Qed.
+
+(* every store built by the API from the empty store has a sorted file map *)
+Corollary fault_success_whole_effect_reachable : forall h w rs c k w' v,
+  run_history empty_world h = Some (w, rs) ->
+  run_fault (FWait k false) w (api c) = Some (w', Val v) ->
+  exists w0, run_seq w (api c) = Some (w0, Val v) /\ same_permanent w' w0.
+Proof.
+  intros h w rs c k w' v Hh. apply fault_success_whole_effect.
+  eapply Indep.run_history_empty_sorted. exact Hh.
+Qed.
+
+(* NON-VACUITY: delete_object(1) on the store {1 -> 7}; fault site 7 is the removal of the deletion
+   marker of the pid reference; its one-off failure is swallowed, the call reports success and the
+   marker stays — the only difference with the fault-free run *)
+Example swallowed_marker_removal :
+  let w1 := mkWorld [(AObj 7, CData 7 1 1); (APidRef 1, CCid 7); (ACidRef 7, CLines [1])] [] in
+  Indep.fsorted (fs w1) /\
+  (site_op 7 w1 (api (CDelete 1)) = Some (Remove (ADel (APidRef 1)))) /\
+  (run_fault (FWait 7 false) w1 (api (CDelete 1)) =
+     Some (mkWorld [(ADel (APidRef 1), CCid 7)] [], Val VUnit)) /\
+  (run_seq w1 (api (CDelete 1)) = Some (mkWorld [] [], Val VUnit)).
+Proof.
+  split; [|vm_compute; repeat split; reflexivity].
+  simpl. repeat split; intros k' Hk; repeat (destruct Hk as [<-|Hk]; [reflexivity|]); destruct Hk.
+Qed.
+Print Assumptions fault_success_whole_effect_reachable.
+Print Assumptions swallowed_marker_removal.
